@@ -27,7 +27,7 @@ import (
 // resource matches, the Usage never reports ready.
 //
 //gosym:harness
-//gosym:cover resolved-by-labels resolved-by-controller nothing-matches ready
+//gosym:cover resolved-by-labels resolved-by-controller nothing-matches ready resolved-again
 func HarnessC19Selector() {
 	s, _ := zzSetupStore()
 	const n = 2
@@ -63,6 +63,13 @@ func HarnessC19Selector() {
 		u.Spec.Of.ResourceSelector.MatchControllerRef = ptr.To(true)
 	}
 	u.Spec.Reason = ptrTo("because")
+	// the Usage is new, or it was reconciled to ready before and its resolved
+	// reference has since been cleared so that the selector is resolved again
+	if zz.Bool("usage.reconciledBefore") {
+		zz.Cover("resolved-again")
+		u.Finalizers = []string{finalizer}
+		u.Annotations = map[string]string{detailsAnnotationKey: detailsAnnotation(u)}
+	}
 	s.Put(u)
 
 	r := NewReconciler(&zzMgr{s: s})
